@@ -420,8 +420,10 @@ namespace DFS
     show_possible("probe_geometry after eliminating under-sized geometries smaller than the file system",
 		  possible);
 
+    bool checked_other_side = false;
     if (possible.size() > 1)
       {
+	checked_other_side = true;
 	// other_side_has_catalog_too eliminates geometries in which the
 	// other side of the media should also have a catalog, but where we
 	// cannot find such a catalog in the implied location.  This helps
@@ -485,6 +487,28 @@ namespace DFS
     if (it == possible.cend())
       {
 	throw DFS::FailedToGuessFormat("all known formats have been eliminated");
+      }
+    if (checked_other_side && it->geometry.heads == 1)
+      {
+	// The smallest candidate is always single-sided, because the
+	// two-sided geometry with the same tracks and sectors is
+	// twice its size.  But if that two-sided geometry is still
+	// possible at this point, we verified above that there is a
+	// valid catalog where it says the second side begins.  So
+	// the image file holds both sides of the disc, and we should
+	// say so (otherwise the second side is silently ignored).
+	auto both_sides =
+	  std::find_if(possible.cbegin(), possible.cend(),
+		       [&it](const DFS::ImageFileFormat& ff)
+		       {
+			 return ff.geometry.heads == 2
+			   && ff.interleaved == it->interleaved
+			   && ff.geometry.cylinders == it->geometry.cylinders
+			   && ff.geometry.sectors == it->geometry.sectors
+			   && ff.geometry.encoding == it->geometry.encoding;
+		       });
+	if (both_sides != possible.cend())
+	  it = both_sides;
       }
     if (DFS::verbose)
       {
